@@ -131,6 +131,30 @@ def St.offering (s : St) (c : Nat) : Option (Msg × Nat) :=
   | .push x i => if s.subs[i]? = some c then some (x, i) else none
   | _ => none
 
+/-- `subscribers[i] <- x` completes for `subscribers[i] = d`: x joins d's queue and the range loop moves on -/
+def St.deliver (s : St) (d : Nat) (x : Msg) (i : Nat) : St :=
+  (s.upd d (fun ch => { ch with buf := ch.buf ++ [x] })).advance x i
+
+/-- the reader of channel c takes the oldest queued trace; `drain`: the reader is the `Unsubscribe` loop -/
+def St.take (s : St) (c : Nat) (drain : Bool) : Option St :=
+  match (s.chan c).buf with
+  | h :: t =>
+    some (s.upd c (fun ch =>
+      if drain then { ch with buf := t, drained := ch.drained ++ [h] }
+      else { ch with buf := t, recvd := ch.recvd ++ [h] }))
+  | [] => none
+
+/-- a receive on channel c: from the queue, or — queue empty and the broadcaster blocked on / about to do `c <- x` —
+directly from the broadcaster (the rendezvous of an unbuffered channel; with a buffer it is a push followed at once by
+the take) -/
+def St.read (s : St) (c : Nat) (drain : Bool) : Option St :=
+  match s.take c drain with
+  | some s' => some s'
+  | none =>
+    match s.offering c with
+    | some (x, i) => (s.deliver c x i).take c drain
+    | none => none
+
 def step (cfg : Cfg) (s : St) : Act → Option St
   | .callSub cap =>
     some { s.upd s.nchan (fun _ => { cap := cap, stat := .subWait }) with nchan := s.nchan + 1 }
@@ -166,30 +190,15 @@ def step (cfg : Cfg) (s : St) : Act → Option St
     match s.pc with
     | .push x i =>
       match s.subs[i]? with
-      | some d =>
-        if (s.chan d).buf.length < (s.chan d).cap then
-          some ((s.upd d (fun ch => { ch with buf := ch.buf ++ [x] })).advance x i)
-        else none
+      | some d => if (s.chan d).buf.length < (s.chan d).cap then some (s.deliver d x i) else none
       | none => none
     | _ => none
   | .consume c =>
     match (s.chan c).stat with
-    | .active =>
-      match (s.chan c).buf with
-      | h :: t => some (s.upd c (fun ch => { ch with buf := t, recvd := ch.recvd ++ [h] }))
-      | [] =>
-        match s.offering c with
-        | some (x, i) => some ((s.upd c (fun ch => { ch with recvd := ch.recvd ++ [x] })).advance x i)
-        | none => none
+    | .active => s.read c false
     | _ => none
   | .drain c =>
-    if cfg.unsubDrains && ((s.chan c).stat == .unsubOffer || (s.chan c).stat == .unsubWaitOk) then
-      match (s.chan c).buf with
-      | h :: t => some (s.upd c (fun ch => { ch with buf := t, drained := ch.drained ++ [h] }))
-      | [] =>
-        match s.offering c with
-        | some (x, i) => some ((s.upd c (fun ch => { ch with drained := ch.drained ++ [x] })).advance x i)
-        | none => none
+    if cfg.unsubDrains && ((s.chan c).stat == .unsubOffer || (s.chan c).stat == .unsubWaitOk) then s.read c true
     else none
   | .subReturn c =>
     match (s.chan c).stat with
